@@ -171,6 +171,12 @@ impl<'a, R: RoleType, T: IsPacketId> Gen<'a, R, T> {
             }
             let ka = self.ka();
             self.op(format!("send {} {}", v, hex(&w_connect(v, clean, ka, b"cid", &ps))));
+            let connect_sent = self.s.out_lines.last().map(|l| l.split(" | ").nth(2).unwrap_or("").contains("send{k=1,")).unwrap_or(false);
+            if !connect_sent && self.legal {
+                // the CONNECT was refused: a conforming server has nothing to answer (the library
+                // tolerates an unsolicited CONNACK - contract-respecting walks do not build on that)
+                return;
+            }
             if v == 5 && self.rng.chance(1, 6) {
                 // extended authentication: AUTH from the server (sizes around our own limit), our answer
                 let n = *self.rng.pick(&[1usize, 10, 60]);
@@ -1143,6 +1149,20 @@ fn walk<R: RoleType, T: IsPacketId>(role: &'static str, ver: u8, steps: usize, r
                 3 => {
                     let rc = if v == 5 { *g.rng.pick(&[None, Some(0u8), Some(0x10), Some(0x10), Some(0x80), Some(0x97)]) } else { None };
                     g.op(format!("send {} {}", v, hex(&w_ack(v, pw, 5, id, rc, None))));
+                    if rc == Some(0x10) && g.status() == "C" {
+                        // a success-class code: the exchange stays open - the peer may retransmit the
+                        // PUBLISH, and the slot stays occupied for our Receive Maximum
+                        if g.rng.chance(1, 2) {
+                            g.op(format!("recv {}", hex(&w_publish(v, pw, 2, true, false, b"a", id, &[], b"q2"))));
+                        }
+                        if g.status() == "C" && g.rng.chance(1, 2) {
+                            for other in [1u64, 2, 3] {
+                                if other != id && g.status() == "C" {
+                                    g.op(format!("recv {}", hex(&w_publish(v, pw, 1, false, false, b"b", other, &[], b"q1"))));
+                                }
+                            }
+                        }
+                    }
                 }
                 4 => {
                     g.op(format!("recv {}", hex(&w_ack(v, pw, 6, id, None, None))));
@@ -1432,7 +1452,22 @@ fn reuse_trial<R: RoleType, T: IsPacketId>(role: &'static str, ver: u8, steps: u
         Some(k) if b.out_lines[j0..].iter().any(|l| l.contains(" st=C ")) => k,
         _ => return g.s.dead || b.dead,
     };
+    // an undetermined object that adopted a version on its first connection keeps it after the
+    // close (recorded finding): the reused object then accepts a CONNECT of that version which
+    // the fresh, still undetermined object refuses with VersionMismatch - every later difference
+    // of this trial follows from that
+    let ev_of = |l: &String| l.split(" | ").nth(2).unwrap_or("").to_string();
+    let adopted = ver == 0
+        && b.out_lines[j0..].iter().zip(a_lines.iter()).take(k0 + 1).any(|(f, a)| ev_of(f).contains("err 393") && !ev_of(a).contains("err 393"));
     writeln!(out, "T conn {name}-fresh role={role} pw={pw} ver={ver} legal=1").unwrap();
+    if adopted {
+        for l in b.out_lines.iter() {
+            writeln!(out, "{l}").unwrap();
+        }
+        writeln!(out, "Y - | ADOPTED | - | -").unwrap();
+        writeln!(out, "END").unwrap();
+        return g.s.dead || b.dead;
+    }
     for (j, l) in b.out_lines.iter().enumerate() {
         writeln!(out, "{l}").unwrap();
         if j >= j0 + k0 {
